@@ -11,6 +11,47 @@ from sigpyproc.readers import FilReader, PFITSReader
 FIX = os.path.join(os.environ.get("PVC_FIXTURES", "/repo/tests/data"), "parkes_4bit.sf")
 
 
+def independent_decode(path):
+    """(nchans, nsamples) float64, descending frequency: 4/8-bit search-mode PSRFITS, TPF ordering, Coherence/Intensity."""
+    from astropy.io import fits
+    with fits.open(path, memmap=False) as hdul:
+        sub = hdul["SUBINT"]
+        hd = sub.header
+        nbits, npol, nchan, nsblk = int(hd["NBITS"]), int(hd["NPOL"]), int(hd["NCHAN"]), int(hd["NSBLK"])
+        zero_off = float(hd.get("ZERO_OFF", 0.0) or 0.0)
+        pol_type = str(hd.get("POL_TYPE", "")).strip()
+        rows = []
+        freqs = None
+        for row in sub.data:
+            raw = np.asarray(row["DATA"]).ravel().astype(np.uint8)
+            if nbits == 4:
+                vals = np.empty(raw.size * 2, dtype=np.float64)
+                vals[0::2] = raw >> 4       # first sample in the high nibble
+                vals[1::2] = raw & 0x0F
+            elif nbits == 8:
+                vals = raw.astype(np.float64)
+            else:
+                raise ValueError(f"nbits {nbits} not handled by the independent decoder")
+            vals = vals.reshape(nsblk, npol, nchan)
+            scl = np.asarray(row["DAT_SCL"], dtype=np.float64).reshape(npol, nchan)
+            offs = np.asarray(row["DAT_OFFS"], dtype=np.float64).reshape(npol, nchan)
+            wts = np.asarray(row["DAT_WTS"], dtype=np.float64)[:nchan]
+            cal = ((vals - zero_off) * scl[None] + offs[None]) * wts[None, None, :]
+            if pol_type in ("AABBCRCI", "AABB") and npol >= 2:
+                tot = (cal[:, 0, :] + cal[:, 1, :]) / np.sqrt(2.0)
+            else:
+                tot = cal[:, 0, :]
+            rows.append(tot)
+            freqs = np.asarray(row["DAT_FREQ"], dtype=np.float64)[:nchan]
+        data = np.concatenate(rows)            # (nsamples, nchans)
+        if freqs[1] > freqs[0]:
+            data = data[:, ::-1]
+        nstot = hd.get("NSTOT")
+        if nstot:
+            data = data[: int(nstot)]
+        return data.T
+
+
 def sweep_impl(rep, tier, seed):
     rng = np.random.default_rng(seed)
     r = PFITSReader(FIX)
@@ -25,6 +66,17 @@ def sweep_impl(rep, tier, seed):
     whole = np.asarray(r.read_block(0, N).data)
     rep.check(whole.shape == (nchans, N), "whole-file read shape", function="readers.py::PFITSReader.read_block", input=dict(N=N))
     rep.check(h.foff < 0, "channels not in descending-frequency order", function="pfits.py::PFITSFile.read_subints", input="foff", observed=h.foff)
+    # independent decoder: the SUBINT table read with astropy directly (not through sigpyproc.io.pfits)
+    try:
+        ref = independent_decode(FIX)
+        rep.case(("independent", "whole"))
+        scale = max(1.0, float(np.abs(ref).max()))
+        rep.check(ref.shape == whole.shape and bool(np.all(np.abs(ref - whole) <= 2e-5 * scale)),
+                  "whole-file read differs from (raw - ZERO_OFF) * DAT_SCL + DAT_OFFS, times DAT_WTS, polarisations summed, descending frequency",
+                  function="pfits.py::PFITSFile.read_subint", input=dict(file="parkes_4bit.sf"),
+                  observed=whole[:2, :3].tolist(), required=ref[:2, :3].tolist())
+    except Exception as exc:  # noqa: BLE001
+        rep.fail("independent PSRFITS decoder failed", function="bounded/c18.py::independent_decode", input=dict(file=FIX), observed=repr(exc)[:200])
     reqs = [(0, 1), (0, SB), (SB - 1, 2), (SB - 10, 20), (10, SB), (SB, SB), (1, N - 1), (N - 1, 1), (N - 5, 5), (SB + 7, 33)]
     reqs += [(int(rng.integers(0, N - 1)), 0) for _ in range(6 if tier == "quick" else 60)]
     for (s, n) in reqs:
